@@ -140,8 +140,16 @@ class PanicGraph:
         if v is not None:
             return (v, v)
         name = re.sub(r'^(move|copy) ', '', op)
-        m = re.fullmatch(r'\((_\d+)\.0: \w+\)', name)
+        m = re.fullmatch(r'\((_\d+)\.(\d+): \w+\)', name)
         if m:
+            # a component of a tuple built in place: the operand it was built from
+            aggs = [st['rv'] for blk in mir['blocks'] for st in blk.get('stmts', [])
+                    if st.get('lhs') == m.group(1) and 'rv' in st]
+            if len(aggs) == 1 and aggs[0].get('k') == 'Aggregate' and aggs[0].get('ak') == 'Tuple' and \
+                    int(m.group(2)) < len(aggs[0].get('ops', [])):
+                return self._interval(mir, aggs[0]['ops'][int(m.group(2))], depth + 1)
+            if m.group(2) != '0':
+                return None
             name = m.group(1)       # value half of a checked-arithmetic pair
         defs = []
         for blk in mir['blocks']:
